@@ -12,6 +12,11 @@ independent decoding of the measured bits.
 Correspondence: the algorithm circuit's gate list == `QV.Algo.{dj,bv,simon}Gates`, amplitudes of
 the real gate list == `QV.Amp.run` (integer amplitudes / 2^{h/2}), `runClassical` of the black
 box == harness classical simulator, `decode_output` == `QV.Algo.{djDecode,argDecode}`.
+Repeated use / argument purity of the decoders (`purity_block`): every reading (str, int, List[bool]; exact, longer,
+shorter) is decoded several times on ONE object - by the algorithm object, a second object of the same class and an
+object of the other class on the same function -, the caller's object is compared with its snapshot after every call,
+every call is judged by the same independent decoding and compared with the stateless model; `decode_counts` three
+times on one dict.  Configurations: `case["profile"]` (default / fast optimizer profile) is part of every case.
 The theorems' hypothesis (black box = clean xor-oracle on classical basis states) is checked per
 black box with the classical simulator; a black box that fails it is skipped and counted (it is
 a C02/C03/C06 matter).
@@ -29,6 +34,7 @@ from .common import Ctx, Result
 LEVEL = "proof"
 TOL = 1e-9
 FID_DECODE = "C16-dj-decode-nonint"
+FID_INTPAD = "C16-decode-int-padright"
 
 
 # ----------------------------------------------------------------------------- functions
@@ -130,6 +136,164 @@ def parity(v):
     return bin(v).count("1") & 1
 
 
+# ----------------------------------------------------------------------------- configuration
+
+def profile_kw(case):
+    """keyword arguments of `QlassF.from_function` for the optimizer profile recorded in the case"""
+    prof = case.get("profile", "default")
+    if prof == "default":
+        return {}
+    bo = importlib.import_module("qlasskit.boolopt.bool_optimizer")
+    return dict(bool_optimizer=getattr(bo, {"fast": "fastOptimizer"}[prof]))
+
+
+# ----------------------------------------------------------------------------- repeated use / argument purity
+
+PURITY_OUTCOMES = 8   # outcomes per algorithm object (evenly spaced over the possible ones) in the systematic slice
+VARIANTS = 2          # randomised call sequences per algorithm object
+
+
+def expected_decode(algo, tj, ybits):
+    if algo == "dj":
+        return "Constant" if not any(ybits) else "Balanced"
+    return expected_value(tj, ybits)
+
+
+def readings_of(full, ybits):
+    """every way the measured outcome `full` (qubit 0 rightmost; `ybits[k]` = output qubit k) can be handed to a
+    decoder: (label, reading, model key).  By construction each of them denotes the same measured output bits:
+    a str / List[bool] longer than n carries the other qubits on the left, a shorter one has its zero low-order
+    end dropped (format_outcome's right padding), an int is the number the digit string denotes."""
+    short = "".join("1" if b else "0" for b in reversed(ybits))
+    bl = lambda t: [c == "1" for c in t]  # noqa: E731
+    reps = [("str-long", full, ("s", full)), ("str-exact", short, ("s", short)),
+            ("int-long", int(full, 2), ("i", int(full, 2))), ("int-exact", int(short, 2), ("i", int(short, 2))),
+            ("list-exact", bl(short), ("s", short)), ("list-long", bl(full), ("s", full))]
+    stripped = short.rstrip("0")
+    if stripped != short:
+        reps += [("str-short", stripped, ("s", stripped)), ("list-short", bl(stripped), ("s", stripped))]
+    return reps
+
+
+def same_object(obj, snap):
+    if type(obj) is not type(snap):
+        return False
+    if isinstance(obj, list):
+        return len(obj) == len(snap) and all(type(x) is bool and x is y for x, y in zip(obj, snap))
+    return obj == snap
+
+
+def purity_block(case, out, a, other, cls, qf, A, outcomes, N, active_quirks):
+    """REPEATED USE and ARGUMENT PURITY of `decode_output`: every reading object is decoded several times by the
+    same algorithm object, by a second object of the same class and (Deutsch-Jozsa <-> Bernstein-Vazirani) by an
+    object of the other class built on the same function; each call must report the measured outcome (the
+    per-call oracle), the caller's object must be bit for bit what it was before the first call, and each call is
+    compared with the (stateless) model's decoding of the original reading."""
+    import random
+    algo, n, tj = case["algo"], case["n"], case["tj"]
+    cross, calgo = None, None
+    if algo in ("dj", "bv"):
+        calgo = "bv" if algo == "dj" else "dj"
+        try:
+            cross = (A.BernsteinVazirani if algo == "dj" else A.DeutschJozsa)(qf)
+        except Exception:  # noqa
+            cross = None
+    decoders = {"a": (a, algo), "b": (other, algo), "c": (cross, calgo)}
+    stats = dict(objects=0, calls=0, by_reading={}, by_sequence={}, variants=0)
+    out["purity"] = stats
+    model_reqs = {}      # (decoder algo, model key, quirks on) -> request
+    model_uses = {}      # id(request) -> [(label, call number, who, got)]
+    int_cands = out.setdefault("int_candidates", [])
+    reported = set()
+
+    def model_req(dalgo, key, quirks_on=True):
+        k = (dalgo, key, quirks_on)
+        if k not in model_reqs:
+            r = dict(op="c16.decode", algo=dalgo, ty=tj, n=n, quirks=list(active_quirks) if quirks_on else [])
+            if key[0] == "s":
+                r["istr"] = key[1]
+            else:
+                r["istr"] = ""
+                r["int"] = key[1]
+            model_reqs[k] = r
+            model_uses[id(r)] = []
+        return model_reqs[k]
+
+    def run_sequence(label, reading, key, ybits, seq, kind):
+        snap = list(reading) if isinstance(reading, list) else reading
+        stats["objects"] += 1
+        stats["by_reading"][label] = stats["by_reading"].get(label, 0) + 1
+        sk = "".join(seq)
+        stats["by_sequence"][sk] = stats["by_sequence"].get(sk, 0) + 1
+        for k, who in enumerate(seq, 1):
+            dec, dalgo = decoders[who]
+            if dec is None:
+                continue
+            expd = expected_decode(dalgo, tj, ybits)
+            try:
+                d = dec.decode_output(reading)
+                got = d if dalgo == "dj" else code_value(d)
+            except Exception as e:  # noqa
+                got = f"raised {type(e).__name__}: {e}"
+            stats["calls"] += 1
+            whos = {"a": "the algorithm object", "b": "a second object of the same class", "c": f"a {calgo} object on the same function"}[who]
+            info = dict(reading_kind=label, reading=snap if not isinstance(snap, list) else [bool(x) for x in snap],
+                        sequence=sk, call=k, decoder=whos, slice=kind)
+            if not same_object(reading, snap):
+                if ("pure", label) not in reported:
+                    reported.add(("pure", label))
+                    out["violations"].append(dict(what=f"decode_output modified the caller's {label} reading (call #{k} of sequence {sk})",
+                                                  code=repr(reading)[:300], expected=repr(snap)[:300], **info))
+                # go on: the later calls on the (now different) object are still judged against the measured outcome
+            if got != expd:
+                first = who not in seq[:k - 1]
+                v = dict(what=(f"decode_output({snap!r}) by {whos} does not report the measured outcome" if first else
+                               f"decode_output: call #{k} on the same {label} reading object (sequence {sk}) by {whos} does not report "
+                               "the measured outcome; its first call on this object did"), code=got, expected=expd, **info)
+                if label.startswith("int") and dalgo != "dj":
+                    int_cands.append(dict(v=v, key=key, n=n, asis=model_req(dalgo, key, True), fixed=model_req(dalgo, key, False)))
+                elif ("res", label, who) not in reported:
+                    reported.add(("res", label, who))
+                    out["violations"].append(v)
+            if len(model_reqs) < 120 or (dalgo, key, True) in model_reqs:
+                model_uses[id(model_req(dalgo, key, True))].append((label, k, sk, whos, got))
+
+    # systematic slice: the same for every seed
+    sel = outcomes
+    if len(outcomes) > PURITY_OUTCOMES:
+        step = (len(outcomes) - 1) / (PURITY_OUTCOMES - 1)
+        sel = [outcomes[round(j * step)] for j in range(PURITY_OUTCOMES)]
+    for full, ybits in sel:
+        for label, reading, key in readings_of(full, ybits):
+            seq = ["a", "a", "a", "b"] + (["c"] if cross is not None else []) + ["a"]
+            run_sequence(label, reading, key, ybits, seq, "systematic")
+    # randomised variants: a random outcome, a random mutable reading (also longer than the register, with
+    # arbitrary bits on the left), a random sequence of decoders
+    rng = random.Random(f"C16-variant-{case.get('vseed', 0)}")
+    avail = [w for w in ("a", "b", "c") if decoders[w][0] is not None]
+    for _ in range(VARIANTS if outcomes else 0):
+        full, ybits = outcomes[rng.randrange(len(outcomes))]
+        reps = [r for r in readings_of(full, ybits) if r[0].startswith("list")]
+        junk = "".join(rng.choice("01") for _ in range(rng.randint(1, 3)))
+        reps.append(("list-longer", [c == "1" for c in junk + full], ("s", junk + full)))
+        label, reading, key = reps[rng.randrange(len(reps))]
+        seq = [rng.choice(avail) for _ in range(rng.randint(2, 6))]
+        stats["variants"] += 1
+        run_sequence(label, reading, key, ybits, seq, "random")
+
+    for r in model_reqs.values():
+        uses = model_uses[id(r)]
+
+        def chk(rep, _uses=uses, _r=r):
+            for label, k, sk, whos, got in _uses:
+                if rep.get("out") != got:
+                    return dict(what=f"decode_output of a {label} reading, call #{k} of sequence {sk} by {whos}, differs from the model's "
+                                     "decoding of the original reading", code=got, model=rep,
+                                reading=_r.get("int", _r.get("istr")))
+            return None
+        out["reqs"].append((r, chk))
+
+
 # ----------------------------------------------------------------------------- one case
 
 def bits_of(v, w):
@@ -154,7 +318,7 @@ def eval_case(case, active_quirks=()):
                 from qlasskit.algorithms.bernsteinvazirani import secret_oracle
                 qf = secret_oracle(n, case["secret"])
             else:
-                qf = QlassF.from_function(case["src"])
+                qf = QlassF.from_function(case["src"], **profile_kw(case))
     except Exception as e:  # noqa
         out["skip"] = f"compile-raised:{type(e).__name__}"
         return out
@@ -307,6 +471,7 @@ def eval_case(case, active_quirks=()):
     # ---- decoded outputs of every outcome that can occur
     counts, exp_counts = {}, {}
     decode_reqs = 0
+    outcomes = []
     for i, amp in enumerate(sv):
         p = abs(amp) ** 2
         if p < 1e-12:
@@ -316,6 +481,7 @@ def eval_case(case, active_quirks=()):
         short = "".join("1" if b else "0" for b in reversed(ybits))
         c = max(1, round(p * 2 ** 16))
         counts[full] = c
+        outcomes.append((full, ybits))
         if algo == "dj":
             expd = "Constant" if not any(ybits) else "Balanced"
             ekey = expd
@@ -340,16 +506,38 @@ def eval_case(case, active_quirks=()):
                 out["reqs"].append((dict(op="c16.decode", algo=algo, ty=tj, n=n, istr=istr, quirks=list(active_quirks)),
                                     (lambda got, istr: lambda rep: None if rep.get("out") == got else
                                      dict(what=f"decode_output({istr!r}) differs from the model", code=got, model=rep))(got, istr)))
+    def canon_counts(obj, cd):
+        try:
+            dc = obj.decode_counts(cd)
+            got = {}
+            for k, c in dc.items():
+                kk = k if algo == "dj" else json.dumps(code_value(k), sort_keys=True)
+                got[kk] = got.get(kk, 0) + c
+            return got
+        except Exception as e:  # noqa
+            return f"raised {type(e).__name__}: {e}"
+
+    # decode_counts twice on the SAME dict object (then by a second algorithm object): every call
+    # aggregates the measured outcomes, the caller's dict is left as it was (keys, order, values)
+    cd = dict(counts)
+    snap_items = list(cd.items())
     try:
-        dc = a.decode_counts(dict(counts))
-        got_counts = {}
-        for k, c in dc.items():
-            kk = k if algo == "dj" else json.dumps(code_value(k), sort_keys=True)
-            got_counts[kk] = got_counts.get(kk, 0) + c
+        other = cls(qf)
     except Exception as e:  # noqa
-        got_counts = f"raised {type(e).__name__}: {e}"
-    if got_counts != exp_counts and not out["known_candidates"]:
-        out["violations"].append(dict(what="decode_counts does not aggregate the measured outcomes", code=got_counts, expected=exp_counts))
+        other = None
+        out["violations"].append(dict(what=f"building a second algorithm object on the same function raised {type(e).__name__}: {e}"))
+    for k, obj in enumerate([a, a] + ([other] if other is not None else []), 1):
+        got_counts = canon_counts(obj, cd)
+        who = "the same object" if obj is a else "a second algorithm object"
+        if got_counts != exp_counts and not out["known_candidates"]:
+            out["violations"].append(dict(what=f"decode_counts (call #{k} on the same counts dict, {who}) does not aggregate the measured outcomes",
+                                          code=got_counts, expected=exp_counts, call=k))
+            break
+        if list(cd.items()) != snap_items or any(type(kk) is not str or type(vv) is not int for kk, vv in cd.items()):
+            out["violations"].append(dict(what=f"decode_counts (call #{k}) modified the caller's counts dict",
+                                          code=[[str(kk), vv] for kk, vv in cd.items()][:40], expected=[list(x) for x in snap_items][:40], call=k))
+            break
+    purity_block(case, out, a, other, cls, qf, A, outcomes, N, active_quirks)
     return out
 
 
@@ -430,6 +618,76 @@ def simon_cases(ctx: Ctx):
     return cases
 
 
+def fast_systematic_cases():
+    """CONFIGURATION slice, the same for every seed: every function form once more under
+    `bool_optimizer=fastOptimizer` (no merge_expressions / apply_cse: assignments and shared sub-expressions reach
+    the compiler as they were written)."""
+    cases = []
+    # Deutsch-Jozsa: per width x argument type x expression form: a constant, the parity, a single variable /
+    # non-linear balanced functions
+    for n in (1, 2, 3):
+        fns = [("const", lambda x: True), ("bal", lambda x: bool(parity(x)))]
+        if n == 2:
+            fns.append(("bal", lambda x: bool(x >> 1 & 1)))
+        if n == 3:
+            fns.append(("bal", lambda x: bool(((x & 1) & (x >> 1 & 1)) ^ (x >> 2 & 1))))
+            fns.append(("bal", lambda x: bin(x).count("1") >= 2))
+        for tname, tsrc, tj, var in arg_types(n):
+            for form in ("anf", "dnf"):
+                for kind, fn in fns:
+                    bits = [bool(fn(x)) for x in range(2 ** n)]
+                    body = (expr_anf if form == "anf" else expr_dnf)(bits, n, var)
+                    cases.append(dict(algo="dj", n=n, ty=tname, tj=tj, form=form, kind=kind, tt=[int(b) for b in bits],
+                                      src=bool_src(tsrc, body), profile="fast"))
+    # Bernstein-Vazirani: the bool function, the source text secret_oracle generates (an assignment `s=QintN(secret)`
+    # in front of the return), the linear functions on tuple types
+    tname, tsrc, tj, var = arg_types(1)[0]
+    cases.append(dict(algo="bv", n=1, ty=tname, tj=tj, secret=1, tt=[0, 1], src=bool_src(tsrc, expr_anf([0, 1], 1, var)), profile="fast"))
+    for n in (2, 3, 4, 5):
+        sct = 2 ** (n - 1) + 1
+        tt = [parity(x & sct) for x in range(2 ** n)]
+        src = (f"def oracle(x: Qint[{n}]) -> bool:\n  s=Qint{n}({sct})\n  return ("
+               + "^".join(f"(x[{i}]&s[{i}])" for i in range(n)) + ")")
+        cases.append(dict(algo="bv", n=n, ty=f"Qint[{n}]", tj=["qint", n], secret=sct, tt=tt, form="secret-src", src=src, profile="fast"))
+    for n in (2, 3):
+        for tname, tsrc, tj, var in arg_types(n)[1:]:
+            for sct in (2 ** n - 1, 2 ** (n - 1)):
+                tt = [parity(x & sct) for x in range(2 ** n)]
+                cases.append(dict(algo="bv", n=n, ty=tname, tj=tj, secret=sct, tt=tt, src=bool_src(tsrc, expr_anf(tt, n, var)), profile="fast"))
+    # Simon: per width x argument type: periods 1 and 1...1, f(x) = rank of min(x, x ^ s)
+    for n in (2, 3, 4):
+        for ti, (tname, tsrc, tj, var) in enumerate(arg_types(n)):
+            for s in (1, 2 ** n - 1):
+                if n == 4 and ti > 0 and s == 1:
+                    continue
+                reps = sorted({min(x, x ^ s) for x in range(2 ** n)})
+                table = [reps.index(min(x, x ^ s)) for x in range(2 ** n)]
+                cases.append(dict(algo="simon", n=n, ty=tname, tj=tj, s=s, table=table, src=simon_src(tsrc, n, table, var), profile="fast"))
+    return cases
+
+
+def drawn_at_random(case, ctx):
+    """cases whose function is drawn from ctx.rng (the others are enumerated and the same for every seed)"""
+    if case["algo"] == "simon":
+        return True
+    if case["algo"] == "dj" and case["kind"] == "bal":
+        return case["n"] >= 4 or (case["n"] == 3 and not ctx.thorough and case["ty"] != arg_types(3)[0][0])
+    return False
+
+
+def all_cases(ctx: Ctx):
+    import random
+    cases = dj_cases(ctx) + bv_cases(ctx) + simon_cases(ctx)
+    prng = random.Random(f"C16-config-{ctx.seed}")
+    for c in cases:
+        c["profile"] = "fast" if (drawn_at_random(c, ctx) and not c.get("secret_oracle") and prng.random() < 0.3) else "default"
+    cases += fast_systematic_cases()
+    vrng = random.Random(f"C16-variants-{ctx.seed}")
+    for c in cases:
+        c["vseed"] = vrng.getrandbits(32)
+    return cases
+
+
 # ----------------------------------------------------------------------------- run
 
 def active_quirks(ctx: Ctx):
@@ -465,6 +723,26 @@ def judge(ctx: Ctx, res: Result, case, out, replies):
             res.known(FID_DECODE)
         else:
             res.violation(pub, v["what"], **{k: x for k, x in v.items() if k != "what"})
+    # attribution of wrong decodings of int readings to the listed finding: precise trigger = an int reading with
+    # fewer binary digits than the register has qubits, handed to a decoder that interprets the bits in the argument
+    # type (Bernstein-Vazirani, Simon); the quirk-model must give the code's value on this very integer and the
+    # repaired model the expected one
+    fi = next((f for f in ctx.findings if f["id"] == FID_INTPAD and f.get("status", "open") == "open" and f.get("_active")), None)
+    seen = set()
+    for c in out.get("int_candidates", []):
+        v = c["v"]
+        is_known = False
+        if fi is not None and replies is not None and c["key"][0] == "i" and len(bin(c["key"][1])[2:]) < c["n"] \
+                and fi.get("quirk") in c["asis"]["quirks"]:
+            ra = next((rep for (req, _), rep in zip(out["reqs"], replies) if req is c["asis"]), None)
+            rf = next((rep for (req, _), rep in zip(out["reqs"], replies) if req is c["fixed"]), None)
+            if ra is not None and rf is not None and ra.get("out") == v["code"] and rf.get("out") == v["expected"]:
+                is_known = True
+        if is_known:
+            res.known(FID_INTPAD)
+        elif (v["reading_kind"], v["decoder"]) not in seen:
+            seen.add((v["reading_kind"], v["decoder"]))
+            res.violation(pub, v["what"], **{k: x for k, x in v.items() if k != "what"})
 
 
 def run(ctx: Ctx) -> Result:
@@ -472,14 +750,22 @@ def run(ctx: Ctx) -> Result:
     res.rule = ("nontrivial = the black box compiled to a clean classical xor-oracle (resp. two-to-one map) "
                 "and the algorithm object was built, simulated and decoded")
     quirks = active_quirks(ctx)
-    cases = dj_cases(ctx) + bv_cases(ctx) + simon_cases(ctx)
+    cases = all_cases(ctx)
     evaluated = []
     skips = {}
+    pur = dict(objects=0, calls=0, variants=0, by_reading={}, by_sequence={})
     for case in cases:
         out = eval_case(case, quirks)
-        bucket = f"{case['algo']}-n{case['n']}"
+        bucket = f"{case['algo']}-n{case['n']}-{case.get('profile', 'default')}"
+        for k, v in (out.get("purity") or {}).items():
+            if isinstance(v, dict):
+                for kk, vv in v.items():
+                    pur[k][kk] = pur[k].get(kk, 0) + vv
+            else:
+                pur[k] += v
         if out["skip"]:
-            skips[out["skip"]] = skips.get(out["skip"], 0) + 1
+            sk = out["skip"] + ("" if case.get("profile", "default") == "default" else f" [{case['profile']}Optimizer]")
+            skips[sk] = skips.get(sk, 0) + 1
             res.count({k: v for k, v in case.items()}, nontrivial=False, bucket=bucket + "-skipped")
             continue
         res.count({k: v for k, v in case.items()}, nontrivial=True, bucket=bucket)
@@ -515,6 +801,28 @@ def run(ctx: Ctx) -> Result:
         f"fragment->any/evaluated: {tally.by_text()}; the remaining instances rest on the per-instance check of the real "
         "circuit, as before")
     res.extra["skipped_blackboxes"] = skips
+    profs = {}
+    for case in cases:
+        k = f"{case['algo']}:{case.get('profile', 'default')}"
+        profs[k] = profs.get(k, 0) + 1
+    res.extra["configurations"] = dict(by_algo_profile=profs, systematic_fast=len(fast_systematic_cases()),
+                                       drawn_fast=sum(1 for c in cases if c.get("profile") == "fast") - len(fast_systematic_cases()))
+    res.extra["repeated_use"] = dict(reading_objects=pur["objects"], decode_output_calls=pur["calls"], random_variants=pur["variants"],
+                                     by_reading=dict(sorted(pur["by_reading"].items())),
+                                     by_sequence=dict(sorted(pur["by_sequence"].items(), key=lambda kv: (-kv[1], kv[0]))[:12]),
+                                     outcomes_per_object=PURITY_OUTCOMES, decode_counts_calls_per_object=3)
+    res.notes.append(
+        f"repeated use / argument purity: {pur['objects']} reading objects ({dict(sorted(pur['by_reading'].items()))}), "
+        f"{pur['calls']} decode_output calls; systematic slice (same for every seed): up to {PURITY_OUTCOMES} possible outcomes per "
+        "algorithm object x readings str/int/List[bool] (exact, longer, shorter) x the sequence a,a,a,b[,c],a (a = the object, b = a "
+        "second object of the same class, c = Bernstein-Vazirani <-> Deutsch-Jozsa on the same function) on ONE reading object, the "
+        f"object compared with its snapshot after every call; {pur['variants']} randomised sequences (random outcome, list reading "
+        "also longer than the register with arbitrary left bits, 2-6 random decoders); decode_counts 3x on one dict (twice the object, "
+        "once a second object), dict compared with its snapshot; every call judged by the textbook decoding of the measured bits and "
+        "compared with the stateless model's decoding of the original reading")
+    res.notes.append(
+        f"configurations: {profs}; systematic: every function form once more under bool_optimizer=fastOptimizer "
+        f"({len(fast_systematic_cases())} instances, same for every seed); the functions drawn at random draw the profile (30% fast)")
     res.exhaustive = True
     res.notes.append("exhaustive: constant/balanced functions on 1..3 bits (x argument types), secrets on 1..5 bits, "
                      "periods on 2..4 bits; sampled: 4/5-bit Deutsch-Jozsa, the two-to-one functions per period")
@@ -536,6 +844,11 @@ def witness_fails(ctx: Ctx, f):
         qf = QlassF.from_function(w["src"])
         a = A.DeutschJozsa(qf)
         return a.decode_output(w["istr"]) != w["expected"]
+    if f.get("id") == FID_INTPAD:
+        A = importlib.import_module("qlasskit.algorithms")
+        from qlasskit.algorithms.bernsteinvazirani import secret_oracle
+        a = A.BernsteinVazirani(secret_oracle(w["n"], w["secret"]))
+        return code_value(a.decode_output(w["reading_int"])) != {"i": w["expected"]}
     return None
 
 
